@@ -105,6 +105,7 @@ def make_engine(case, repo, summaries_lib, seed=0, concrete=False):
     for k, h in summaries_lib.get("externals", {}).items():
         eng.externals[k] = h
     eng.recursive_only = set(summaries_lib.get("recursive_only", ()))
+    eng.external_consts = dict(summaries_lib.get("external_consts", {}))
     return eng
 
 
@@ -290,7 +291,11 @@ def verify_ground(case, repo, summaries_lib, res, t0):
                 for label, f in case.ensures.items():
                     try:
                         ok = f(inp, v)
+                        if ok is SKIP:
+                            continue
                         ok = bool(ok) if not is_sym(ok) else z3.is_true(z3.simplify(ok))
+                        if not ok and label in case.known and bool(case.known[label]["carve"](inp)):
+                            ok = True
                         detail = f"returned {_short(v)}"
                     except Exception as ex:
                         ok, detail = False, f"postcondition not evaluable: {type(ex).__name__}: {ex}"
